@@ -21,7 +21,7 @@ var rtVarKinds = []varKind{
 	{re: `[0-9]{1,3}`, good: []string{"7", "12", "123"}, bad: []string{"1234", "x"}},
 	{re: `\w+`, good: []string{"a_1", "Z9"}, bad: []string{"a-b", "a.b"}},
 	{re: `(?:a|b)x*`, good: []string{"a", "bxx", "ax"}, bad: []string{"c", "xa"}},
-	{re: `.+`, good: []string{"a", "a/b", "x/y/z.css"}, bad: []string{""}},
+	{re: `.+`, good: []string{"a", "a/b", "x/y/z.css", "v1/../v2/x.md", "a/./b"}, bad: []string{""}},
 	{re: `[1-9][0-9]*`, good: []string{"1", "90"}, bad: []string{"0", "01"}},
 	{re: `\d{2}`, good: []string{"12", "00"}, bad: []string{"1", "123"}},
 	{name: "all", good: []string{"", "a", "a/b"}, bad: nil},
@@ -172,7 +172,18 @@ func (g *rtG) instance(p *rtPat, goodP int) string {
 }
 
 func rtMutate(r *Rng, s string) string {
-	switch r.Intn(9) {
+	switch r.Intn(11) {
+	case 9, 10: // a dot segment after one of the slashes: the path is matched as it is written (nothing resolves "." / "..")
+		var at []int
+		for i := range s {
+			if s[i] == '/' {
+				at = append(at, i)
+			}
+		}
+		if len(at) > 0 {
+			i := at[r.Intn(len(at))]
+			return s[:i] + r.Pick([]string{"/.", "/..", "/./x/..", "/x/.."}) + s[i:]
+		}
 	case 0:
 		return s + "/"
 	case 1:
@@ -401,6 +412,16 @@ func c02Gen(r *Rng, tier string, i int) Sx {
 		qs = append(qs, L(A(kind), S(m), S(p)))
 		if r.Chance(1, 3) { // repeat: served from the cache when enabled
 			qs = append(qs, L(A(kind), S(m), S(p)))
+		}
+	}
+	if r.Chance(1, 6) { // very long paths that differ in the middle only: each gets its own parameters, cached or not
+		d, a, b := rtLongTwin(r, true)
+		t.defs = append(t.defs, d)
+		if len(opts) == 0 {
+			opts = append(opts, L(A("cache"), I(r.Range(1, 4))))
+		}
+		for k := 0; k < 3; k++ {
+			qs = append(qs, L(A(r.Pick([]string{"m", "s"})), S("GET"), S(a)), L(A(r.Pick([]string{"m", "s"})), S("GET"), S(b)))
 		}
 	}
 	return L(A("rt"), LS(opts), LS(t.defs), LS(qs))
